@@ -5,9 +5,9 @@ import kcommon as kc
 
 PID = "C07"
 MODEL_TARGETS = ["Proofs/Eval.vo", "Amount/F64.vo", "Amount/Dec.vo", "Gen/Catalogue.vo", "Spec/Units.vo"]
-PROOF_TARGETS = ["Props/C07.vo", "Pinned/C07.vo", "Props/C07pi.vo", "Pinned/C07pi.vo"]
-PROPS = ["Props/C07.v", "Props/C07pi.v"]
-COQCHK = ["QV.Props.C07"]
+PROOF_TARGETS = ["Props/C07.vo", "Pinned/C07.vo", "Props/C07pi.vo", "Pinned/C07pi.vo", "Props/Literals.vo", "Pinned/Literals.vo"]
+PROPS = ["Props/C07.v", "Props/C07pi.v", "Props/Literals.v"]
+COQCHK = ["QV.Props.C07", "QV.Props.Literals"]
 TRUSTED_BASE = [
     "Coq 8.16.1 kernel (coqc; vm_compute over the finite tables); coqchk in the thorough tier on Props/C07.v - the parsec statements (Props/C07pi.v) are checked by coqc only: coqchk re-evaluates Coq-Interval's reflexive proof without the VM and needs about an hour",
     "Spec/Units.v (hand, independent of the repository): name, symbol, SI prefix and exact definition of each of the 112 + 27 units, chained to the reference unit",
@@ -18,7 +18,8 @@ TRUSTED_BASE = [
 LEVEL = ("Coq theorems (Props/C07.v), decided by the kernel over the regenerated tables against the independently written Spec/Units.v: for all 112 units of the main crate in both amount types and all 27 units of the "
          "astronomical crate (f64): same unit set, symbol and SI prefix equal, the literal's exact value equals the definition whenever that is a terminating decimal, the binary64 scale is within 2^-52 relative and the "
          "decimal scale within 10^-18 (exact up to 18 decimals) of the definition, SI-prefixed scales differ by exactly ten to the prefix-exponent difference, reference units have scale one; pc/kpc/Mpc/Gpc within 2^-52 of "
-         "648000/pi (interval arithmetic). Names/arms = declaration by the registry theorem shared with C09.")
+         "648000/pi (interval arithmetic). Names/arms = declaration by the registry theorem shared with C09."
+         " The literal conversions themselves are theorems (Props/Literals.v): `lit as f64` is the correctly rounded exact value (or the signed infinity on overflow), `Dec!` rejects for one of eight stated reasons or represents the literal exactly.")
 LEVEL_NOTE = "Trusted: Coq kernel, Spec/Units.v, translator rs2j+j2v, the literal-conversion models (validated bit-for-bit against the compiled crate each run), Coq-Interval; axioms: stdlib reals + PrimInt63/Uint63 (parsec theorem only)."
 ASSUMPTIONS = [
     "rustc converts a float literal to the nearest f64 and fpdec's Dec! takes the literal digit by digit (validated: every scale's bit pattern / coefficient is compared with the model's on every run)",
